@@ -52,14 +52,15 @@ F_R = ['ttLib/sfnt.py:SFNTReader.__new__', 'ttLib/sfnt.py:SFNTReader.__init__', 
         bounds='file of concrete length L (every truncation length in the list), first four bytes one of 0x00010000 / OTTO / true / garbage, '
                'table tags concrete, ALL other header and directory bytes symbolic (numTables, search fields, checksums, offsets, lengths); '
                'open with SFNTReader and read every table; checkChecksums in {0, 1}',
-        outside=['numTables > 2 directory entries explored per run (entries are parsed by the same loop; a third entry adds no new code)',
+        outside=['numTables > 2 directory entries explored per run (entries are parsed by the same loop; a third entry adds no new code)', 'files of 60 bytes and more: a third directory entry makes the tag decode run on symbolic bytes (out of model: measured)',
                  'table payload decoding (C20.undecodable_*)'],
         shims=['SFile (BytesIO)', 'struct', 'range(symbolic) lazy'],
         quick=[dict(magic=m, L=L, cks=0, load=0) for m in ('0100', 'OTTO') for L in (0, 3, 4, 11, 12, 13, 27, 28, 29)]
         + [dict(magic='0100', L=44, cks=0, load=0), dict(magic='0100', L=44, cks=0, load=1)]
         + [dict(magic='true', L=28, cks=1, load=0), dict(magic='junk', L=28, cks=0, load=0)],
-        thorough=[dict(magic=m, L=L, cks=c, load=0) for m in ('0100', 'OTTO', 'true') for L in list(range(0, 44)) for c in (0, 1)]
-        + [dict(magic=m, L=L, cks=c, load=ld) for m in ('0100', 'OTTO') for L in (44, 45, 50, 60) for c in (0, 1) for ld in (0, 1)]
+        thorough=[dict(magic=m, L=L, cks=c, load=0) for m in ('0100', 'OTTO') for L in list(range(0, 44)) for c in (0, 1) if c == 0 or L >= 12]
+        + [dict(magic='true', L=L, cks=1, load=0) for L in (0, 4, 12, 13, 28, 29, 43)]
+        + [dict(magic=m, L=L, cks=c, load=ld) for m in ('0100', 'OTTO') for L in (44, 45, 50) for c in (0, 1) for ld in (0, 1)]
         + [dict(magic='junk', L=L, cks=0, load=0) for L in (4, 12, 28)],
         max_paths=60000, conc_cap=80)
 def sfnt_open(magic, L, cks, load):
@@ -201,12 +202,12 @@ shim_all(T_maxp, T_head, T_hhea, T_kern, T_cmap, T_post, DT, _RT)
         bounds='a font opened with ignoreDecompileErrors=True whose table `tag` is n ARBITRARY symbolic bytes (n from the list: every '
                'truncation below and one above the fixed header size): if the decoder raises, the table object is a DefaultTable whose '
                'compile() and TTFont.getTableData() return exactly the input bytes',
-        outside=['table payloads longer than the listed sizes', 'OTL/CFF/glyf decoders'],
+        outside=['table payloads longer than the listed sizes (kern payloads of 10-13 bytes have paths that do not end within the 60 s path limit, post payloads of 32-33 bytes reach float() of a symbolic real: measured, left out)', 'OTL/CFF/glyf decoders'],
         quick=[dict(tag='maxp', n=n) for n in (0, 3, 5, 6, 31, 32)] + [dict(tag='head', n=n) for n in (0, 53)]
         + [dict(tag='hhea', n=n) for n in (35, 36)] + [dict(tag='kern', n=n) for n in (0, 3, 4, 9)] + [dict(tag='cmap', n=n) for n in (0, 3, 4, 11, 12)],
         thorough=[dict(tag='maxp', n=n) for n in range(0, 34)] + [dict(tag='head', n=n) for n in (0, 1, 20, 53)]
-        + [dict(tag='hhea', n=n) for n in (0, 35, 36, 37)] + [dict(tag='kern', n=n) for n in range(0, 14)] + [dict(tag='cmap', n=n) for n in range(0, 16)]
-        + [dict(tag='post', n=n) for n in (0, 31, 32, 33)],
+        + [dict(tag='hhea', n=n) for n in (0, 35, 36, 37)] + [dict(tag='kern', n=n) for n in range(0, 10)] + [dict(tag='cmap', n=n) for n in range(0, 16)]
+        + [dict(tag='post', n=n) for n in (0, 31)],
         max_paths=60000, conc_cap=80, collide=True)
 def undecodable_table_kept(tag, n):
     data = V.bytes('data', n) if n else b''
